@@ -3450,6 +3450,7 @@ class DecVar(Vars):
                          dvars.vtype, dvars.name)
         self.dro_model = dro_model
         self.event_adapt = [list(range(dro_model.num_scen))]
+        self.event_rest = True
         self.rand_adapt = None
         self.ro_first = - 1
         self.fixed = fixed
@@ -3509,7 +3510,7 @@ class DecVar(Vars):
 
         for event in events:
             index = self.dro_model.series_scen[event]
-            if index in self.event_adapt[0]:
+            if self.event_rest and index in self.event_adapt[0]:
                 self.event_adapt[0].remove(index)
             else:
                 raise KeyError('Wrong scenario index or {0} '.format(event) +
@@ -3517,6 +3518,7 @@ class DecVar(Vars):
 
         if not self.event_adapt[0]:
             self.event_adapt.pop(0)
+            self.event_rest = False
 
         self.event_adapt.append(list(self.dro_model.series_scen[events]))
 
